@@ -32,7 +32,7 @@ FACTORY_NAMES = [
     "generic.param_error", "generic.disconnected", "generic.wrong_mode", "generic.unsupported_domain",
     "generic.busy", "generic.cmd_result_code", "generic.Error()", "generic.Success()", "generic.Busy()",
     "generic.result_set_later", "generic.progress_set_later", "generic.verbose_set_later",
-    "generic.debug_set_later"]
+    "generic.debug_set_later", "ble.prepare_manual", "ble.prepare_connevt", "ble.prepare_pattern"]
 PADDABLE = ["generic.verbose", "generic.debug", "ble.pdu", "ble.send_pdu", "phy.packet", "phy.send",
             "esb.pdu", "esb.send_pdu", "dot15d4.pdu", "dot15d4.send_pdu", "discovery.info_resp"]
 
@@ -494,6 +494,33 @@ def gen_pb_streams(ctx, pbm, pool):
     return S, classes
 
 
+def gen_content_class_streams(ctx, pool):
+    """Sequences of messages of ONE protobuf kind whose wrapper class depends on the content, on one
+    hub, in every order: ble.prepare with manual / connection-event / pattern trigger; generic.cmd_result
+    with every result code in a row.  Each stream in a forked child; compared by class and bytes."""
+    import itertools
+    fr = lambda m: ["frame", m["frame"], m["ser"]]
+    S = []
+    two = [["sizes", []], ["every", 3]]
+    def add(ms, what):
+        S.append({"cls": "clean", "items": [fr(m) for m in ms], "chunkings": two, "isolated": True, "v": None, "pb": what})
+    prep = [next((m for m in pool if m["name"] == n), None) for n in ("ble.prepare_manual", "ble.prepare_connevt", "ble.prepare_pattern")]
+    if all(prep):
+        for perm in itertools.permutations(prep):
+            add(list(perm) + [perm[0]], "ble.prepare triggers in the order " + ", ".join(m["name"].split("_")[-1] for m in perm))
+    results = {}
+    for m in pool:
+        if m["name"].startswith("generic.") and m["rt"][-1].startswith("whad.hub.generic.cmdresult."):
+            results.setdefault(m["rt"][-1], m)
+    rs = [results[k] for k in sorted(results)]
+    if len(rs) > 1:
+        add(rs, "every generic.cmd_result class in a row")
+        add(rs[::-1] + rs[:2], "every generic.cmd_result class in a row, reversed")
+        ctx.rng.shuffle(rs)
+        add(rs + rs, "every generic.cmd_result class, shuffled, twice")
+    return S
+
+
 def gen_collision_streams(ctx, pbm):
     """Message kinds that carry the SAME name in several domains (start, stop, pdu, raw_pdu, send,
     send_raw, sniff, jam, jammed, set_node_addr), mixed on one hub in every order, for a hub of the
@@ -669,7 +696,10 @@ def run(ctx):
 
     # ---- real messages from the real hub and sender ---------------------------
     specs, nbig = message_specs(ctx)
-    r1 = C.run_impl("C01.py", {"messages": specs, "pbmut": True})
+    # one sender framing a sequence: everything once, then (after the >= 256-byte and 64 KiB messages)
+    # short messages again
+    seq = list(range(len(specs))) + list(range(0, min(len(specs), 12))) + [len(specs) - 1, 0, 5]
+    r1 = C.run_impl("C01.py", {"messages": specs, "pbmut": True, "sender_seq": seq})
     msgs = []
     excluded = []
     for sp, m in zip(specs, r1["messages"]):
@@ -697,7 +727,7 @@ def run(ctx):
     streams += gen_streams(ctx, pool, bigpool)
     pb_streams, pb_classes = gen_pb_streams(ctx, r1.get("pbmut", []), pool)
     streams += pb_streams
-    coll = gen_collision_streams(ctx, r1.get("pbmut", []))
+    coll = gen_collision_streams(ctx, r1.get("pbmut", [])) + gen_content_class_streams(ctx, pool)
     pb_classes["same_name_streams"] = len(coll)
     streams += coll
     for m in empty_msgs[:2]:
@@ -766,6 +796,16 @@ def run(ctx):
         if len(ser) < 65536 and frm != bytes([AC, BE]) + le16(len(ser)) + ser:
             report("DevInThread.serialize did not produce AC BE <len LE16> <serialized message>",
                    {"op": "serialize", "name": m["name"], "ser": m["ser"][:4096], "frame": m["frame"][:4096]},
+                   expected=(bytes([AC, BE]) + le16(len(ser))).hex() + " + message", observed=m["frame"][:64])
+    for pos, m in enumerate(r1.get("sender_seq", [])):
+        if "exc" in m:
+            continue
+        ser, frm = bytes.fromhex(m["ser"]), bytes.fromhex(m["frame"])
+        if len(ser) < 65536 and frm != bytes([AC, BE]) + le16(len(ser)) + ser:
+            prev = r1["sender_seq"][pos - 1] if pos else None
+            report("DevInThread.serialize, framing a sequence of messages, did not produce AC BE <len LE16> <serialized message>",
+                   {"op": "serialize-sequence", "position": pos, "name": m["name"], "ser": m["ser"][:4096], "frame": m["frame"][:4096],
+                    "previous_message": prev and {"name": prev["name"], "serialized_size": len(prev.get("ser", "")) // 2}},
                    expected=(bytes([AC, BE]) + le16(len(ser))).hex() + " + message", observed=m["frame"][:64])
     for name, spec, sw in sweep_res:
         for dv in sw["deviations"][:2]:
